@@ -177,7 +177,7 @@ def base_mesh(rng, kind, size=None):
         info["gen"] = "tensor"
     elif kind == "wedge":
         mt = MeshTri1.init_tensor(rand_axis(rng, rng.randint(1, 2)), rand_axis(rng, rng.randint(1, 2)))
-        m = mt * MeshLine1(rand_axis(rng, rng.randint(1, 2))[None, :])
+        m = mt * skfem.MeshLine(rand_axis(rng, rng.randint(1, 2)))
         p, t = m.p.copy(), m.t.copy()
         info["gen"] = "tensor"
     else:
